@@ -158,9 +158,14 @@ def rule_tls_restore(ctx, cfg, F):
                 elif not st["lhs"].get("p") and st["rv"]["r"] == "agg":
                     # a struct built from tracked lists keeps them in its fields (an RAII scope holding the saved lists)
                     for i, a in enumerate(st["rv"]["a"]):
-                        src = op_local(a)
-                        if src is not None and lkey(src) in d and not a["pl"].get("p"):
-                            state = setv(state, ("L", st["lhs"]["l"], (i,)), d[lkey(src)])
+                        src = a["pl"]["l"] if op_place(a) is not None else None
+                        if src is None:
+                            continue
+                        apath = tuple(e["f"] for e in a["pl"].get("p", []) if isinstance(e, dict) and "f" in e)
+                        # the operand (a local, or a field of one: `move tables.channels` captured by a closure) and whatever is tracked below it
+                        for k, v in list(d.items()):
+                            if k[0] == "L" and k[1] == src and k[2][:len(apath)] == apath:
+                                state = setv(state, ("L", st["lhs"]["l"], (i,) + k[2][len(apath):]), v)
                 elif st["lhs"].get("p") == ["*"] and st["rv"]["r"] == "use":
                     # `*table.borrow_mut() = list`
                     k, is_t = cell_key(f, tr, {"k": "cp", "pl": {"l": st["lhs"]["l"]}})
